@@ -204,7 +204,10 @@ def main(argv: list[str]) -> int:
                     + [s for r in reports for s in r.samples[:4]])[:24] or ['(none)'],
         'exhaustive': False,
         'obligation_list': [{'id': o.id, 'cls': o.cls, 'status': o.status, 'backend': o.backend, 't': round(o.time_s, 3)}
-                            for o in obligations],
+                            for o in obligations[:600]],
+        'obligation_list_truncated': max(0, len(obligations) - 600),
+        'not_discharged': [{'id': o.id, 'cls': o.cls, 'status': o.status, 'detail': o.detail[:300]}
+                           for o in obligations if o.status != 'discharged'],
         'known_findings_reported': known_hits,
         'undecided': undecided,
         'tool_errors': [e[:500] for e in tool_errors],
@@ -222,7 +225,7 @@ def main(argv: list[str]) -> int:
     EVID.mkdir(exist_ok=True)
     jdump(ev, str(EVID / f'{pid}.json'))
 
-    for line in known_hits:
+    for line in sorted(set(known_hits)):
         print(line)
     print(f'[{pid}/{tier}] obligations={n_ob} discharged={n_dis} bounded_evaluations={sum(r.evaluations for r in reports)} '
           f'violations={len(violations)} undecided={len(undecided)} errors={len(tool_errors)} wall={wall}s')
